@@ -6,11 +6,14 @@ import (
 	"fmt"
 	"io"
 	"runtime"
+	"sort"
 	"sync"
+	"sync/atomic"
 	"time"
 
 	"github.com/jf-tech/omniparser"
 	"github.com/jf-tech/omniparser/idr"
+	"github.com/jf-tech/omniparser/transformctx"
 
 	"verif/harness/core"
 	"verif/harness/gen"
@@ -244,6 +247,11 @@ func runC14(c *core.Ctx) {
 		j.serial = maskLines(omni.RunAll(e.s, bytes.NewReader(input), omni.RunOpts{MaxReads: 3000, ExtraReads: 1, Ext: ext}), e.format)
 		jobs = append(jobs, j)
 	}
+	c14Interleaved(c, r, len(jobs), func(i int) (omniparser.Schema, []byte, omni.Transcript, string, []byte) {
+		e := schemas[jobs[i].schema]
+		return e.s, jobs[i].input, jobs[i].serial, e.format, e.text
+	}, ext)
+	c14ColdStart(c, r, ext)
 	G := []int{2, 8, 32}[r.Intn(3)]
 	if c.Tier == core.Thorough && r.Chance(1, 4) {
 		G = 128
@@ -312,5 +320,163 @@ func runC14(c *core.Ctx) {
 	}
 	if c.Idx < 8 {
 		c.Sample(map[string]interface{}{"schemas": len(schemas), "jobs": len(jobs), "goroutines": G, "gomaxprocs": procs, "yields": yields, "stamp_windows": log.windows()})
+	}
+}
+
+// c14Interleaved keeps several transforms alive at once in ONE goroutine and advances them round-robin: no scheduling luck is needed for
+// state that two live transforms must not share (buffers, readers, caches keyed too coarsely) to show up as a result that differs
+// from the transform's result when it ran alone.
+func c14Interleaved(c *core.Ctx, r *core.Rand, njobs int, job func(i int) (omniparser.Schema, []byte, omni.Transcript, string, []byte), ext map[string]string) {
+	k := r.Range(4, 12)
+	if k > njobs {
+		k = njobs
+	}
+	pick := r.Perm(njobs)[:k]
+	type live struct {
+		tr     omniparser.Transform
+		got    omni.Transcript
+		done   bool
+		extra  int
+		serial omni.Transcript
+		format string
+		text   []byte
+		input  []byte
+	}
+	// jobs of the same schema next to each other, so that the sliding window below holds transforms of the same format together
+	var ls []*live
+	for _, ji := range pick {
+		_, input, serial, format, text := job(ji)
+		ls = append(ls, &live{serial: serial, format: format, text: text, input: input})
+	}
+	sort.SliceStable(ls, func(i, j int) bool { return string(ls[i].text) < string(ls[j].text) })
+	schemaOf := map[string]omniparser.Schema{}
+	for _, ji := range pick {
+		s, _, _, _, text := job(ji)
+		schemaOf[string(text)] = s
+	}
+	// a window of W transforms is alive at any time; whenever one has ended the next ones are created (right after the ended one gave
+	// back whatever it gives back), and all live ones are advanced in turns
+	W := r.Range(2, 4)
+	low := r.Intn(W) // new transforms are created, up to W alive, whenever no more than `low` are left (0: the whole window is replaced at once)
+	next := 0
+	var alive []*live
+	maxAlive := 0
+	for steps := 0; steps < 40000; steps++ {
+		for (len(alive) <= low || (len(alive) < W && steps == 0)) && next < len(ls) {
+			for len(alive) < W && next < len(ls) {
+				l := ls[next]
+				next++
+				tr, err := schemaOf[string(l.text)].NewTransform("in", bytes.NewReader(l.input), &transformctx.Ctx{ExternalProperties: ext})
+				if err != nil {
+					l.got = omni.Transcript{{Op: "NewTransform", Class: omni.FATAL, ErrType: omni.ErrType(err), ErrMsg: err.Error()}}
+					l.done = true
+					continue
+				}
+				l.tr = tr
+				alive = append(alive, l)
+			}
+		}
+		if len(alive) == 0 {
+			break
+		}
+		if len(alive) > maxAlive {
+			maxAlive = len(alive)
+		}
+		for i := 1; i < len(alive); i++ {
+			if alive[i].format == alive[0].format {
+				c.Inc("interleaved_steps_with_two_live_transforms_of:" + alive[0].format)
+				break
+			}
+		}
+		var still []*live
+		for _, l := range alive {
+			st := omni.ReadStep(l.tr, true)
+			l.got = append(l.got, st)
+			if st.Class == omni.EOF || st.Class == omni.FATAL {
+				if l.extra >= 1 || len(l.got) > 3000 {
+					l.done = true
+				}
+				l.extra++
+			}
+			if !l.done {
+				still = append(still, l)
+			}
+		}
+		alive = still
+	}
+	c.Max("interleaved_transforms_alive_at_once", int64(maxAlive))
+	for _, l := range ls {
+		c.Inc("interleaved_transforms")
+		c.Inc("evaluations")
+		got := maskLines(l.got, l.format)
+		if got.String() != l.serial.String() {
+			i := firstDiff(got, l.serial)
+			c.Violate("C14:interleaved:"+l.format, "a transform advanced in turns with other live transforms (same goroutine) produced a different result than when running alone",
+				map[string]interface{}{"transforms_alive": len(ls), "schema": string(l.text), "input": core.Trunc(string(l.input), 2000),
+					"first_difference_at_step": i, "interleaved": stepAt(got, i), "alone": stepAt(l.serial, i)})
+			return
+		}
+	}
+}
+
+var c14ColdSeq int64
+
+// c14ColdStart loads a schema whose xpath strings no cache in this process has seen yet and lets several goroutines use it for the
+// first time at the same moment (released together by a barrier); only then it is run alone for comparison. Lazily filled process-wide
+// caches (compiled xpaths, regexps, javascript programs, anything derived from them) are hit cold by all of them at once.
+func c14ColdStart(c *core.Ctx, r *core.Rand, ext map[string]string) {
+	format := gen.Formats[r.Intn(len(gen.Formats))]
+	k := gen.NewKit(r, format)
+	tag := fmt.Sprintf("cold-%d-%d-%d", c.Seed, c.Idx, atomic.AddInt64(&c14ColdSeq, 1))
+	k.Filter = "n!='0' and id!='" + tag + "'"
+	var doc map[string]interface{}
+	json.Unmarshal(k.Schema(gen.ModeFilter), &doc)
+	fo := doc["transform_declarations"].(map[string]interface{})["FINAL_OUTPUT"].(map[string]interface{})
+	obj := fo["object"].(map[string]interface{})
+	obj["coldarr"] = map[string]interface{}{"array": []interface{}{map[string]interface{}{"xpath": "*[.!='" + tag + "']"}}}
+	obj["coldfield"] = map[string]interface{}{"xpath": "id[.!='" + tag + "a']"}
+	obj["coldjs"] = map[string]interface{}{"custom_func": map[string]interface{}{"name": "javascript", "args": []interface{}{
+		map[string]interface{}{"const": "v + '" + tag + "'"}, map[string]interface{}{"const": "v"}, map[string]interface{}{"xpath": "id"}}}}
+	text, _ := json.Marshal(doc)
+	s, err := omni.NewSchema(text)
+	if err != nil {
+		c.Inconclusive("cold-start schema rejected: " + err.Error())
+		return
+	}
+	var recs []gen.Rec
+	for i := 0; i < r.Range(2, 12); i++ {
+		rec := k.GenRec(r, i)
+		if r.Chance(1, 5) {
+			rec.Num = "0"
+		}
+		recs = append(recs, rec)
+	}
+	input := k.Render(r, recs, gen.RenderOpts{})
+	G := r.Pick2(2, 4, 8)
+	start := make(chan struct{})
+	outs := make([]omni.Transcript, G)
+	var wg sync.WaitGroup
+	for g := 0; g < G; g++ {
+		wg.Add(1)
+		go func(g int) {
+			defer wg.Done()
+			<-start
+			outs[g] = omni.RunAll(s, bytes.NewReader(input), omni.RunOpts{MaxReads: 3000, ExtraReads: 1, Ext: ext})
+		}(g)
+	}
+	close(start)
+	wg.Wait()
+	alone := maskLines(omni.RunAll(s, bytes.NewReader(input), omni.RunOpts{MaxReads: 3000, ExtraReads: 1, Ext: ext}), format)
+	c.Inc("cold_start_arenas")
+	for g := 0; g < G; g++ {
+		c.Inc("cold_start_transforms")
+		c.Inc("evaluations")
+		got := maskLines(outs[g], format)
+		if got.String() != alone.String() {
+			i := firstDiff(got, alone)
+			c.Violate("C14:cold-start:"+format, "a transform that was among the first, simultaneous users of a freshly loaded schema produced a different result than the same transform running alone afterwards",
+				map[string]interface{}{"goroutines": G, "schema": string(text), "input": core.Trunc(string(input), 2000), "first_difference_at_step": i, "cold": stepAt(got, i), "alone": stepAt(alone, i)})
+			return
+		}
 	}
 }
